@@ -238,6 +238,7 @@ func c15(c *Ctx) {
 	// an exported transaction decodes back to the committed values only if the bytes appended to the export are the bytes
 	// just read: the shared value buffer is used under its mutex (analysis shared with C07.8 / C14.1)
 	c14ExportBuffer(c, "C15.8/export-carries-the-read-bytes")
+	exprTextRule(c, "C15.9/expression-text-round-trips")
 	// ---- C15.4 (keys) nanosecond keys are built only from timestamps that fit ----------------------------------------
 	// the key codec holds UnixNano() in 8 bytes: outside 1677..2262 UnixNano is undefined and the key order is not the
 	// value order; the conversion is dominated by a lower and an upper range test of the same value
